@@ -230,8 +230,12 @@ func emitStatusOptionReuse(out *Out, r *Rng) {
 func emitRegistryBookkeeping(out *Out, r *Rng) {
 	var why []string
 	reg := &verifiable.CredentialStatusResolverRegistry{}
-	a := statusResolver{func(st verifiable.CredentialStatus) (verifiable.RevocationStatus, error) { return verifiable.RevocationStatus{}, errors.New("a") }}
-	b := statusResolver{func(st verifiable.CredentialStatus) (verifiable.RevocationStatus, error) { return verifiable.RevocationStatus{}, errors.New("b") }}
+	a := statusResolver{func(st verifiable.CredentialStatus) (verifiable.RevocationStatus, error) {
+		return verifiable.RevocationStatus{}, errors.New("a")
+	}}
+	b := statusResolver{func(st verifiable.CredentialStatus) (verifiable.RevocationStatus, error) {
+		return verifiable.RevocationStatus{}, errors.New("b")
+	}}
 	reg.Delete(verifiable.SparseMerkleTreeProof) // deleting from an empty registry is harmless
 	reg.Register(verifiable.SparseMerkleTreeProof, a)
 	reg.Register(verifiable.Iden3commRevocationStatusV1, b)
